@@ -226,7 +226,8 @@ SEQ_CONTENTS = ['', '1', '12345678901234567890123456789012345678901234567890', '
 
 SAVE_KINDS = ('svg', 'png', 'eps', 'pdf', 'pam', 'ppm', 'xpm', 'pbm', 'xbm', 'tex', 'txt', 'ans')
 COLOUR_KINDS = ('svg', 'png', 'eps', 'pdf', 'pam', 'ppm', 'xpm')
-BAD_COLOURS = ['', '#12', '#ggg', 'nope', (1, 2), (256, 0, 0), (0, 0, 0, 2.0), '#12345', (1, 2, 3, 4, 5), '#', (-1, 0, 0)]
+BAD_COLOURS = ['', '#12', '#ggg', 'nope', (1, 2), (256, 0, 0), (0, 0, 0, 2.0), '#12345', (1, 2, 3, 4, 5), '#', (-1, 0, 0), '##123', '###fff', '##112233',
+               '#1234567', '# 123', '12 3', '#-12', (0, 0), (1.5, 300, 0), '0x123']
 
 
 def gen_cases(tier):
@@ -408,6 +409,11 @@ def cli_vectors(quick):
                 if (oi + ki + ci) % (3 if quick else 1) == 0 or oi < 2:
                     vecs.append((c, tuple(o), knd))
     vecs.append(('1' * 7090, (), 'svg'))
+    vecs.append(('M\xe4rchen', ('--encoding', 'ascii'), 'svg'))
+    vecs.append(('M\xe4rchen', ('--encoding', 'ascii'), None))
+    vecs.append(('\u20ac', ('--encoding', 'latin1', '--version', '1'), 'png'))
+    vecs.append(('abc', ('--mode', 'numeric'), 'txt'))
+    vecs.append(('\u70b9', ('--mode', 'hanzi'), 'txt'))
     vecs.append(('12345', ('--version', '1'), None))
     vecs.append(('A' * 30, ('--version', '1'), None))
     return vecs
